@@ -16,8 +16,12 @@ How the Go values are read (checked by the translator, fatal otherwise):
   since (checked); every dereference is nil-guarded, or covered by an entry condition (`joinSubTrees`: a, b ≠ nil;
   `joinAllSubTrees`: t.head ≠ nil) that is checked at every call site, all callers in the package being translated functions.
 * `[]byte` / `[][]byte` are values (`List`); a slice RESULT for which some return statement gives the literal nil is an `Option`
-  (`Root`: nil for the empty tree; `Prove`: nil proof set), `append(x[:0:0], x...)` is the value of `x`.  A `Prove` result shares its
-  backing array with `t.proofSet` in Go: what is proved is the value at the time `Prove` returns (see the remark in bin/props.py).
+  (`Root`: nil for the empty tree; `Prove`: nil proof set), `append(x[:0:0], x...)` is the value of `x`.  `Prove` works on
+  `make([][]byte, len(t.proofSet), …)` + `copy` (a copy into the make of the statement just before: checked) and ends with the
+  element-wise copy loop `proofSet[i] = append(proofSet[i][:0:0], proofSet[i]...)` (an in-place write to a local that is only ever
+  assigned `make` / `append` to itself: checked) — both are the identity on VALUES (`copy_replicate_self`, `proveLoop3_id`); that the
+  returned slices share no memory with the tree is what these statements are for in Go, and is outside a by-value model (tie K, ops
+  `acca`).
 * `uint64` is `Nat` with explicit `% 2^64`, `1 << uint(h)` is `shl64`; `int` heights are `Int`.
 * `if !t.proofTree { panic }` at the entry of `Prove` is the predicate `Prove.panics`; the def `Prove` describes the other calls.
 * loops are recursion on a fuel argument (exhausted fuel = loop exit); every theorem holds for every fuel ≥ the number of sub-trees.
